@@ -178,7 +178,10 @@ def make(targets, timeout=1500, fresh=()):
                                stderr=subprocess.STDOUT, text=True, timeout=timeout)
             return r.returncode == 0, r.stdout
         except subprocess.TimeoutExpired as e:
-            return False, (e.stdout or "") + "\nTIMEOUT"
+            out = e.stdout or ""
+            if isinstance(out, bytes):
+                out = out.decode(errors="replace")
+            return False, out + "\nTIMEOUT"
 
 
 def check_properties(prop, allowed_axioms):
